@@ -7,7 +7,7 @@ import math
 from rv.core import ctx as _ctx
 from rv.core import instrument
 from rv.core.tolerances import GEOS_BUFFER_SIMPLIFY, ROUND_CAP_SHORTFALL
-from rv.core import scribble
+from rv.core import calling, scribble
 from rv.gen import geoms
 from rv.props import c03
 
@@ -253,6 +253,10 @@ def judge(ctx, spec, tb, fb, tb2=None, fb2=None):
     except Exception as e:
         ctx.violate_exc("raises", f"raises_on_second_call:{type(e).__name__}", e, spec=sp)
         again = None
+    if ctx.every(sp, 4):
+        calling.agree(ctx, "buffer_geometry", _orig or O.buffer_geometry, dict(geometry=geoms.build(spec, how="dict"), time_buffer=tb, freq_buffer=fb), sp,
+                      same=lambda x, y: geoms.to_spec(x) == geoms.to_spec(y),
+                      variants={"numlike_buffers": {"time_buffer": calling.numlike(ctx.rng, tb), "freq_buffer": calling.numlike(ctx.rng, fb)}})
     if again is not None and ctx.every(sp, 3):
         # the caller owns what was returned: it edits it in place and buffers an equal, fresh geometry again
         want = geoms.to_spec(r1)
@@ -318,9 +322,9 @@ def run(ctx):
                         "buffers in (0, 1e-6) excluded (below the code's degenerate-axis epsilon)",
                         "round caps are 32-gons and GEOS simplifies buffer input at 1 % of the distance: extents may fall 1.6 % of a buffer short; containment judged at 1e-6 buffer units; monotonicity at 0.006 buffer units"]
     ctx.must_monitors += ["buffer_geometry.post", "buffer.exact", "buffer.contains", "buffer.monotone", "buffer.rejection", "normal_form_walker"]
-    ctx.must_reach += ["geometry/operations.py::buffer_geometry", "geometry/operations.py::buffer_shapely_geometry",
-                       "geometry/operations.py::buffer_timestamp", "geometry/operations.py::buffer_interval",
-                       "geometry/operations.py::buffer_bounding_box_geometry"]
+    ctx.must_reach += ["geometry/operations.py::buffer_geometry", "?geometry/operations.py::buffer_shapely_geometry",
+                       "?geometry/operations.py::buffer_timestamp", "?geometry/operations.py::buffer_interval",
+                       "?geometry/operations.py::buffer_bounding_box_geometry"]
 
     # directed: negative buffers; the two open findings' witnesses
     for typ in geoms.TYPES:
